@@ -95,7 +95,7 @@ func (mc *MemoryChannel) GetOffsetRange(runId string) (int64, int64) {
 func (mc *MemoryChannel) GetRdb(runId string) (int64, int64) {
 	mc.mux.RLock()
 	defer mc.mux.RUnlock()
-	if runId != mc.runId || mc.rdb == nil || !mc.rdb.replayable {
+	if runId != mc.runId || !mc.rdbServableLocked() {
 		return -1, -1
 	}
 	return mc.rdb.left, mc.rdb.size
@@ -114,7 +114,7 @@ func (mc *MemoryChannel) NewReader(offset Offset) (ChannelReader, error) {
 
 	aof := mc.indexContinuousAofLocked(offset.Offset)
 	if aof == nil {
-		if mc.rdb != nil && mc.rdb.replayable && offset.Offset <= mc.rdb.left {
+		if mc.rdbServableLocked() && offset.Offset <= mc.rdb.left {
 			first := mc.rdb.firstSegment()
 			if first == nil {
 				return nil, os.ErrNotExist
@@ -425,14 +425,29 @@ func (mc *MemoryChannel) rangeLocked() (int64, int64) {
 		return left, right
 	}
 
-	if mc.rdb != nil && mc.rdb.replayable {
+	if mc.rdbServableLocked() {
 		return mc.rdb.left, mc.rdb.left
 	}
 	return -1, -1
 }
 
+// rdbServableLocked : the snapshot is complete and the log that follows it is still there. A
+// snapshot is only usable together with that log - whoever has replayed it asks for the log at the
+// snapshot's offset next; once the collector has removed that part of the log the snapshot would
+// be served again and again.
+func (mc *MemoryChannel) rdbServableLocked() bool {
+	if mc.rdb == nil || !mc.rdb.replayable {
+		return false
+	}
+	if len(mc.aofSegs) == 0 {
+		return true
+	}
+	left, _, ok := mc.continuousAofRangeLocked()
+	return ok && left <= mc.rdb.left
+}
+
 func (mc *MemoryChannel) inRangeLocked(offset int64) bool {
-	if mc.rdb != nil && mc.rdb.replayable && offset <= mc.rdb.left {
+	if mc.rdbServableLocked() && offset <= mc.rdb.left {
 		return true
 	}
 	return mc.indexContinuousAofLocked(offset) != nil
